@@ -13,6 +13,7 @@ CLASSES = ['N', 'T', 'F', 'I0', 'I1', 'I-1', 'I7fffffffffffffff', 'I800000000000
            'G(S3132,M(S23666d74=I1))', 'G(I1,M(S23666d74=S78))']
 SMALL_ONLY = {'int!', 'uint!', 'random-bits', 'float!', 'float', '>b', '>kb', '>mb'}       # size arguments that allocate
 D19_WORDS = {'get', 'remove', 'insert', 'get-tag', 'remove-tag', 'insert-tag', 'sort', 'with-tags', '%tagmap-end', '%map-end'}
+D19_TOKENS = D19_WORDS | {'{', '}', '^{', '^}', 'let', 'tags', 'foreach', 'equal?', 'assert-eq'}
 SOUP_SKIP = {'write-all', 'read-all', 'exec-piped', 'include', 'require', 'random', 'random-bits', 'exit'}
 
 
@@ -74,8 +75,11 @@ class C08(XsProp):
         for _ in range(1500 if not thorough else 60000):
             k = rng.randint(1, 14)
             toks = [rng.choice(soupw) if rng.random() < 0.6 else rng.choice(lits) for _ in range(k)]
-            cs.append('xp limits 600 80 40 | input a50f33cc0100ff41420043 4 84 | eval %s | pretty | eval %s | pretty' % (
-                hexsrc(' '.join(toks)), hexsrc(' '.join(rng.choice(soupw) for _ in range(3)))))
+            t2 = [rng.choice(soupw) for _ in range(3)]
+            # soups without map / tag-map words are compared with the model as well (mixed key types are the D19 domain)
+            kind = 'xp' if any(t in D19_TOKENS for t in toks + t2) else 'xs'
+            cs.append('%s limits 600 80 40 | input a50f33cc0100ff41420043 4 84 | eval %s | pretty | eval %s | pretty | dump' % (
+                kind, hexsrc(' '.join(toks)), hexsrc(' '.join(t2))))
         # (b') bodies of every bracketing construct that consume more than they produce, reaching for the values that were on
         # the stack before the opener (frame arithmetic: lengths are subtracted when the construct closes)
         frames = [('[', ']'), ('{', '}'), ('^{', '^}'), ('1 ^{', '^}'), ('#(', '#)'), ('#(', '~)'), (': nm', '; nm'), ('1 if', 'then'),
@@ -108,6 +112,9 @@ class C08(XsProp):
                 else:
                     steps.append('pretty')
             steps.append('pretty')
+            steps.append('dump')
+            if not any(t in D19_TOKENS for x in steps if x.startswith(('eval ', 'compile ')) for t in (bytes.fromhex(x.split(' ')[1]).decode('utf-8', 'replace').split() if x.split(' ')[1] != '-' else [])):
+                steps[0] = 'xs' + steps[0][2:]
             cs.append(' | '.join(steps))
         return cs
 
